@@ -249,7 +249,7 @@ class GMRES:
                 error = np.abs(self.e1[k + 1]) / self.b_norm
                 self.total_error[-1].append(error)
                 # (an exactly vanishing residual means the Krylov space is exhausted: continuing would divide 0/0)
-                if error < self.res and (k >= self.N_min or error <= np.finfo(float).eps * self.total_error[-1][0]):
+                if error < self.res and (k >= self.N_min or self._exhausted or error <= np.finfo(float).eps * self.total_error[-1][0]):
                     converged = True
                     break
             self.total_iters.append(k + 1)
@@ -266,12 +266,16 @@ class GMRES:
     def arnoldi(self, k):
         # Iterative build orthogonal Krylov subspace and $H$ matrix.
         q = self.A.matvec(self.qs[-1])
+        norm0 = npc.norm(q)
         for i in range(k + 1):
             self.H[i, k] = npc.inner(self.qs[i], q, axes='range', do_conj=True)  # <q_i|q>
             q.iadd_prefactor_other(-self.H[i, k], self.qs[i])
-        self.H[k + 1, k] = npc.norm(q)
-        if self.H[k + 1, k] > 0:  # avoid warning if norm(q)==0, error=0 in that case
-            q.iscale_prefactor(1.0 / self.H[k + 1, k])
+        norm = npc.norm(q)
+        self.H[k + 1, k] = norm
+        # breakdown: only rounding noise is left, the Krylov space is exhausted and another step would divide 0/0
+        self._exhausted = not (norm > 1.0e-14 * norm0)
+        if norm > 0:  # avoid warning if norm(q)==0, error=0 in that case
+            q.iscale_prefactor(1.0 / norm)
         self.qs.append(q)
 
     def apply_givens_rotation(self, k):
